@@ -760,7 +760,9 @@ class Runner:
             else:
                 fd = ws[st.wi]["fd"]
                 rr = pr[1] if fd == 1 else pr[2]
-                if rr & W_READY:
+                if ws[st.wi].get("close"):
+                    steps.append("tclose")
+                elif rr & W_READY:
                     steps.append("twrite")
         elif t == "talker":
             ws = r.get("writes", [])
@@ -769,7 +771,9 @@ class Runner:
             else:
                 fd = ws[st.wi]["fd"]
                 rr = pr[1] if fd == 1 else pr[2]
-                if rr & W_READY:
+                if ws[st.wi].get("close"):
+                    steps.append("tclose")
+                elif rr & W_READY:
                     steps.append("twrite")
         else:
             steps.append("exit")
@@ -1091,7 +1095,7 @@ class Runner:
                 e, done = int(rep[1]), int(rep[2])
                 self.model_write(st, part[:done], fd)
                 sim.ev("step", st.label(), "write-error fd%d" % fd, e)
-                self.write_error(st, e)
+                self.write_error(st, e, fd)
             else:
                 raise HarnessError("puppet reply %r" % rep)
         elif step == "fwd":
@@ -1144,6 +1148,18 @@ class Runner:
             else:
                 sim.ev("step", st.label(), "read-error", rep[1] if len(rep) > 1 else "")
                 st.eof = True
+        elif step == "tclose":
+            # a talker closes one of its output descriptors in the middle of its work and goes on
+            fd = r["writes"][st.wi]["fd"]
+            pup.rpc("close %d" % fd)
+            if fd == 1:
+                st.out_closed = True
+            if isinstance(st.objs.get(fd), Pipe):
+                st.objs[fd].drop(st.label(), fd)
+            st.wi += 1
+            st.woff = 0
+            sim.probe("talker_closed_fd%d_mid_run" % fd)
+            sim.ev("step", st.label(), "close fd%d" % fd)
         elif step == "close_out":
             pup.rpc("close 1")
             st.out_closed = True
@@ -1177,10 +1193,18 @@ class Runner:
         self.stage_ended_io(st)
         self.wait_dirty = True
 
-    def write_error(self, st, e):
+    def write_error(self, st, e, fd=1):
         if e == 32:
             st.epipe = True
             self.sim.probe("epipe_seen")
+            G = st.group
+            oc = st.objs.get(fd)
+            if oc is not None and (oc is G.cap_out or oc is G.cap_err) and not self.sc.get("faults"):
+                # The shell is the only reader of a capture pipe and has to drain it to end-of-file, that is
+                # until every writer has closed it: a writer that still holds it can never see EPIPE.
+                # (Not judged under injected pipe()/fork() failures, where the capture may be abandoned.)
+                raise Violation("stream_corrupt", "%s got EPIPE on descriptor %d: the shell closed capture pipe %s "
+                                "while its writer was still running" % (st.label(), fd, oc.label))
             o = st.objs.get(1)
             if isinstance(o, Pipe) and o.reader_open and st.group.launched:
                 raise Violation("stream_corrupt", "%s got EPIPE although the reader of %s is alive" % (
